@@ -38,9 +38,18 @@ def units():
         Unit("_run_stage[save, update raises]", "tdgl.solver.runner:Runner._run_stage", lambda m=None: _stage_raises(m), props=["C12", "C15"], timeout=900),
         Unit("TDGLSolver.__init__[no seed]", F + "__init__", lambda m=None: ic.run_init(m, prefixes=("C12.",)), props=["C12"], timeout=900),
         Unit("TDGLSolver.__init__[seed solution]", F + "__init__", lambda m=None: ic.run_init(m, prefixes=("C12.",), seeded=True), props=["C12"], timeout=900),
+        Unit("solve[every run starts from dt_init]", F + "solve", _solve_start, props=["C12", "C11"], timeout=300),
         _h.bounded_unit("step rule on real updates [bounded]", "tdgl.solver.solver:TDGLSolver.update / adaptive_euler_step / __init__ (real)", "C12", _bounded_quick,
                         "retry_window_and_initial_step_rules_on_the_real_solver", timeout=900),
     ]
+
+
+def _solve_start(m=None):
+    """the real solve() on a solver that may have been run before (shared proof unit with C11): the adaptive state handed to the runner"""
+    from checks import c11
+    r = c11.run_seed(m)
+    r["obls"] = [o for o in r["obls"] if o.name.startswith("C12.") or not o.name.startswith("C")]
+    return r
 
 
 def _stage_raises(m=None):
@@ -62,7 +71,7 @@ def replay(unit, obl):
     if "bounded" in unit:
         bad, n = _bounded_quick()
         return dict(confirmed=bool(bad), failing_input=(bad or [None])[0], evaluations=n)
-    if unit.startswith("TDGLSolver.__init__"):
+    if unit.startswith("TDGLSolver.__init__") or unit.startswith("solve["):
         return update_native.replay_init(unit, obl)
     if unit.startswith("_run_stage"):
         from checks import c15_native
